@@ -34,17 +34,6 @@ Definition jstep (pr : project) (st : jstate) (x : jcall) : jstate :=
   else st.   (* ValueError before anything is touched *)
 Definition jrun (pr : project) (s0 : fs) (h : list jcall) : jstate := fold_left (jstep pr) h (s0, Registry.init).
 
-(* F11b on the joint model: the client whose directory contains the core goes through the direct
-   path while that directory exists *)
-Fixpoint jguard_F11b (pr : project) (st : jstate) (h : list jcall) : bool :=
-  match h with
-  | [] => true
-  | x :: r =>
-      negb (valid_pkgs (cfg_of pr x) && under (j_out x) (p_core pr)
-            && exists_b (fst st) (out_dir (cfg_of pr x)) && j_force x)
-      && jguard_F11b pr (jstep pr st x) r
-  end.
-
 (* the joint property: every generated client finds its classes and every claimed client is there (C11),
    and everything below the project root was there before or is an allowed path of some call (C10) *)
 Definition allowed_by (pr : project) (h : list jcall) (p : path) : Prop :=
